@@ -181,6 +181,23 @@ add("C01",
     "_reshape_output's broadcasting are covered by the correspondence and oracle only. Axiom-free.",
     "Rocq/Coq proof (generic algebra, induction over the stack) on a translated model + symbolic differential correspondence")
 
+add("C02",
+    "Coq theorems over the reals (Coquelicot) about reverse-mode differentiation built from the 17 adjoint rules TRANSLATED "
+    "from operator_eval.py on every run: (i) each rule distributes the row's adjoint times the local partials of its operator "
+    "(algebra, field/ring); (ii) the local partials are the operators' partial derivatives (calculus); (iii) the backward sweep "
+    "maintains 'column + sum of adjoint x tangent = tangent of the root', so the derivative row it returns is the forward-mode "
+    "tangent of the expression tree; hence, for every well-formed stack (any length, sharing, repeated loads, p1 = p2) and every "
+    "point where all operators on the path are differentiable, the value returned with a gradient is the plain evaluation and "
+    "each gradient column w.r.t. inputs or constants IS the partial derivative (is_derive); an input/constant no command loads "
+    "gets exactly zero over any algebra. Tie: translator; exact integer correspondence of the sweep on polynomial stacks; "
+    "finite-difference oracle over all 14 operators at admissible points.",
+    "Trusted: Coq kernel; real-number axioms (ClassicalDedekindReals.sig_not_dec, sig_forall_dec, "
+    "FunctionalExtensionality.functional_extensionality_dep, Classical_Prop.classic via Coquelicot); tr_opeval.py; the harness. "
+    "np.power is a^b = exp(b ln a) on positive bases (outside that open set nothing is claimed); float rounding not modelled. "
+    "Stated for the stack as evaluated (AGraph passes reduced stacks): differentiability is required of every row. The exception "
+    "branch of the two gradient entry points returns a value of the wrong shape (known finding F9b, pinned by an existing test).",
+    "Rocq/Coq proof over R (chain-rule invariant of the sweep) on a translated model + exact integer correspondence + FD oracle")
+
 NOT_APPLICABLE = []
 def main():
     props = [json.loads(l)["id"] for l in open(os.path.join(HERE, "properties.jsonl"))]
